@@ -4,3 +4,5 @@ pub mod log;
 pub mod oracle;
 pub mod ui;
 pub mod version;
+#[cfg(feature = "verif")]
+pub mod verif;
